@@ -11,7 +11,8 @@
 
    Reading of the statement that is made explicit here:
    * the child "reports a result" iff the callee returns a picklable value or raises a
-     picklable exception that IS an Exception.  A BaseException that is not an Exception
+     picklable exception that IS an Exception; "picklable" (the domain of the statement) means
+     that the object survives the round trip: dumps in the child AND loads in the parent.  A BaseException that is not an Exception
      (KeyboardInterrupt, SystemExit, GeneratorExit ...) terminates the child process like
      os._exit does; then, and when the payload cannot be pickled, the child "dies without
      reporting" and the statement only demands termination and a clean exit - the awaiting
@@ -29,7 +30,7 @@ From PV Require Import Base.Exn Model.PipeKernel Model.Subproc.
 Import ListNotations.
 
 Definition callee_reports (b : beh) : bool :=
-  b_pick b && match b_out b with COk => true | CRaise => b_isa b ExceptionC | CDie => false end.
+  b_pick b && negb (b_unp b) && match b_out b with COk => true | CRaise => b_isa b ExceptionC | CDie => false end.
 
 Inductive demand :=
 | DReturn          (* the callee's own return value *)
@@ -68,7 +69,11 @@ Definition final_meets (d : demand) (f : pfinal) : bool :=
    left registered, the child has exited and has been reaped *)
 Definition clean_exit (s : lst) : bool :=
   negb (holds_any (p_ends (ps s))) && negb (p_reader (ps s)) &&
-  p_joined (ps s) && negb (zombie (c_stat (cs s)) (p_joined (ps s))) && cs_exited (c_stat (cs s)).
+  match c_stat (cs s) with
+  | CNotStarted => true                    (* no child was ever created *)
+  | CRunning => false
+  | CExited => p_joined (ps s)             (* exited AND reaped: not a zombie *)
+  end.
 
 (* the outcome the awaiting task may see; `killed` = the child was killed from outside *)
 Definition outcome_ok (b : beh) (killed : bool) (f : pfinal) : bool :=
